@@ -1,0 +1,62 @@
+//go:build verif
+
+package iterable
+
+import "fmt"
+
+// VerifWalk walks the list from the head to the sentinel and checks its links. It returns the
+// number of nodes reachable (sentinel included), how many of them are marked deleted and the sum of
+// the reference counts. The caller must provide whatever exclusion the map's user provides.
+func (im *Map[K, V]) VerifWalk() (nodes, deleted, refSum int, err error) {
+	if im.head == nil {
+		return 0, 0, 0, fmt.Errorf("head is nil")
+	}
+	if im.head.prev != nil {
+		return 0, 0, 0, fmt.Errorf("head.prev is not nil")
+	}
+	live := 0
+	limit := len(im.vals)*4 + 1_000_000
+	var prev *rlItem[K, V]
+	for p := im.head; ; p = p.next {
+		nodes++
+		if nodes > limit {
+			return nodes, deleted, refSum, fmt.Errorf("list does not end (cycle?)")
+		}
+		if p.prev != prev {
+			return nodes, deleted, refSum, fmt.Errorf("node %d: prev link does not point to the predecessor", nodes-1)
+		}
+		if p.refCnt < 0 {
+			return nodes, deleted, refSum, fmt.Errorf("node %d: negative reference count %d", nodes-1, p.refCnt)
+		}
+		refSum += p.refCnt
+		switch p.state {
+		case rlLast:
+			if p.next != nil {
+				return nodes, deleted, refSum, fmt.Errorf("sentinel has a successor")
+			}
+			if p != im.last {
+				return nodes, deleted, refSum, fmt.Errorf("sentinel reached is not map.last")
+			}
+			if live != len(im.vals) {
+				return nodes, deleted, refSum, fmt.Errorf("%d live nodes linked but %d keys indexed", live, len(im.vals))
+			}
+			return nodes, deleted, refSum, nil
+		case rlOk:
+			live++
+			if q, ok := im.vals[p.key]; !ok || q != p {
+				return nodes, deleted, refSum, fmt.Errorf("live node %d (key %v) is not the indexed node of its key", nodes-1, p.key)
+			}
+		case rlDeleted:
+			deleted++
+			if p.refCnt == 0 {
+				return nodes, deleted, refSum, fmt.Errorf("node %d is marked deleted, unreferenced and still linked", nodes-1)
+			}
+		default:
+			return nodes, deleted, refSum, fmt.Errorf("node %d has unknown state %d", nodes-1, p.state)
+		}
+		if p.next == nil {
+			return nodes, deleted, refSum, fmt.Errorf("node %d (state %d) has no successor", nodes-1, p.state)
+		}
+		prev = p
+	}
+}
